@@ -298,6 +298,19 @@ pub fn run_case(case: &Case, st: &mut Stats) -> CaseResult {
             order: Some(orders[i].clone()),
         });
     }
+    // a smoothed BDD (don't-care nodes with two equal children) is a diagram the library produces as well: every
+    // normalised count and every evaluation, asked again and again with other weights and assignments, must hold on it
+    if let Some(b) = bbs.first() {
+        let f = bdd_from_tt(b, t, n);
+        let ns = n - (case.orders.first().and_then(|k| k.first()).copied().unwrap_or(0) as usize % 2).min(n);
+        let deepest = orders[0].iter().rposition(|v| bdd_tt(f).depends(*v)).map(|p| p + 1).unwrap_or(0);
+        let s = b.smooth(f, ns.max(deepest));
+        let stt = bdd_tt(s);
+        st.flag("rep_differs_from_requested_function(C01/C03/C06's concern)", stt != t);
+        reps.push(RepInfo { name: format!("smoothed bdd(order {:?}, {} levels)", orders[0], ns.max(deepest)), rep: Rep::B(s), tt: stt, order: None });
+        reps.push(RepInfo { name: "negated smoothed bdd".into(), rep: Rep::B(s.neg()), tt: stt.not(), order: None });
+        st.bump("smoothed_bdd_reps");
+    }
     for (i, b) in sbs.iter().enumerate() {
         let f = sdd_from_tt(b, t, n);
         let ft = sdd_tt(f);
